@@ -246,6 +246,32 @@ def twoPart (L : Int) : Loc → Bool
      (decide (a.lo = 0) && decide (b.hi = L) && decide (0 < a.hi) && decide (a.hi ≤ b.lo) && decide (b.lo < L)))
   | _ => false
 
+/-- parts in ascending order, none reaching into a later one -/
+def ascParts : List Part → Bool
+  | [] => true
+  | p :: rest => rest.all (fun q => decide (p.hi ≤ q.lo)) && ascParts rest
+
+/-- a part before the origin inside the region over the origin / after the origin inside it -/
+def onPre (L : Int) (rd : RegionData) (p : Part) : Bool := decide (rd.start ≤ p.lo) && decide (p.hi ≤ L)
+def onPost (rd : RegionData) (p : Part) : Bool := decide (0 ≤ p.lo) && decide (p.hi ≤ rd.end)
+
+/-- an origin-spanning feature inside a region over the origin with its exons in transcription order, any number
+    on each side: on the forward strand the exons before the origin (ascending) and then those after it
+    (ascending); on the reverse strand those after the origin (descending) and then those before it (descending);
+    at least one on each side, none empty, none reaching into another -/
+def ringOrdered (L : Int) (rd : RegionData) (l : Loc) : Bool :=
+  l.parts.all (fun p => decide (p.lo < p.hi)) &&
+  match l.strand with
+  | .fwd =>
+    let a := l.parts.takeWhile (onPre L rd)
+    let b := l.parts.dropWhile (onPre L rd)
+    !a.isEmpty && !b.isEmpty && b.all (onPost rd) && ascParts a && ascParts b
+  | .rev =>
+    let b := l.parts.takeWhile (onPost rd)
+    let a := l.parts.dropWhile (onPost rd)
+    !a.isEmpty && !b.isEmpty && a.all (onPre L rd) && ascParts a.reverse && ascParts b.reverse
+  | _ => false
+
 def partsOK (L : Int) (l : Loc) : Bool :=
   !l.parts.isEmpty && l.parts.all fun p => decide (0 ≤ p.lo) && decide (p.lo < p.hi) && decide (p.hi ≤ L)
 
